@@ -28,7 +28,21 @@ class C14(Prop):
 
     def oracle(self, name, ops, go):
         out = []
-        for cops, cgo in cases(ops, go):
+        lean = self.lean_out if self.lean_out is not None and len(self.lean_out) == len(ops) else None
+        lean_cases = [c[1] for c in cases(ops, lean)] if lean is not None else None
+        for cn, (cops, cgo) in enumerate(cases(ops, go)):
+            # "returned unchanged by a later load": the content a load returns is compared with the answer of the model,
+            # which is proved to be the last saved content (C14_refinement / C14_roundtrip)
+            if lean_cases is not None and cn < len(lean_cases):
+                cl = lean_cases[cn]
+                hit = False
+                for i, (op, g) in enumerate(zip(cops, cgo)):
+                    if op.startswith("ps.load") and i < len(cl) and cl[i].startswith("ok ") and g.startswith("ok ") and g != cl[i]:
+                        out.append(viol(f"a load returned {g[3:120]}, the entry saved last is {cl[i][3:120]}", cops, cgo, upto=i))
+                        hit = True
+                        break
+                if hit:
+                    continue
             # The Lean model is proved to refine the obvious finite-map spec (C14_refinement), and the stream is
             # compared exactly, so the model's output IS the reference. The oracle adds the directly observable
             # clauses: crash atomicity, idempotent delete, 'not found' for entries never written in this case.
